@@ -61,6 +61,10 @@ P('C01','value-flow chain rule with role discovery of the filter stages, NEG rea
   "Decides the structure of the pipeline from the registry reply to the installed text on every path: the sent text is builder(healthFilter(tagFilter(reply))) of the same iteration and nothing else is carried across snapshots; each Consul query blocks on an advancing index and its error edge sleeps; in the health filter the append is unreachable, within an iteration, from every exclusion edge (agent down, node/service maintenance on the same node), is dominated by isServiceCheck and passing >= 1, and no edge into it carries strict && total != passing; counters are control-dependent on same node/service id (and accepted status); the tag filter keeps node and maintenance checks; written and looked-up instance keys have the same shape; command lists are sorted before joining; the updater resets the buffer and writes service before manual text, both only from the registry channels. Consul's semantics, quiescence and the if-and-only-if over histories are not decided.",
   COMMON_NOTE)
 
+P('C09','typestate of buffered readers over connections, join-completeness (receives vs. started goroutines on every path), value-identity rules on relay loops, ordering rules on the upstream connection, sibling agreement of the tunnel handlers',
+  "Decides structural necessary conditions that each quantify over all segmentations and close orders: a connection wrapped by a buffered reader (bufio.NewReader / Hijack) is never the copy source, the reader is; every path to return receives as many copy completions as were started (four known findings: the tunnels return after the first direction ends, so a half-closing client loses the reply); relays write exactly buf[0:n] of the same iteration and fail on short writes; the PROXY line precedes every other upstream write and consumed bytes (ClientHello) are replayed whole before the tunnel starts; every dialling tcp.Handler supports the PROXY option; the tcp.conn wrapper forwards unchanged. Byte-for-byte delivery over real sockets is run-time behaviour and not decided.",
+  COMMON_NOTE)
+
 checks=[]; na=[]
 for p in props:
     id=p['id']
